@@ -87,3 +87,19 @@ Theorem C06_json_msgpack_json :
     json_of_docs fmt (fst (transcode_reader utf8_valid mp)) = Some (jwrite_docs fmt js) /\
     json_of_docs fmt (fst (transcode_slice utf8_valid mp)) = Some (jwrite_docs fmt js).
 Proof. exact json_msgpack_json. Qed.
+
+(* Idempotence for JSON on the models of serde_json's writer and reader: xt's
+   JSON output (one line per document, for every stream of values the writer can
+   produce and the reader accepts) is a fixed point of JSON -> JSON - read back by
+   either loop and written again it gives the same bytes (floats under the
+   premise on ryu's spelling). *)
+Theorem C06_json_output_is_a_fixed_point :
+  forall (fmt_f64 : N -> bytes) (float_ok : N -> bool),
+    (forall b, float_ok b = true -> forall f depth tail, val_end tail ->
+       parse_value (S f) depth (fmt_f64 b ++ tail) = ([EF64 b], JOk tail)) ->
+    (forall b, float_ok b = true ->
+       exists c r, fmt_f64 b = c :: r /\ is_ws c = false /\ (c =? 93)%N = false /\ (c =? 125)%N = false /\ (c =? 44)%N = false) ->
+    forall js : list jval, Forall (writable float_ok) js ->
+      json_of_docs fmt_f64 (fst (json_reader (jwrite_docs fmt_f64 js))) = Some (jwrite_docs fmt_f64 js) /\
+      json_of_docs fmt_f64 (fst (json_slice (jwrite_docs fmt_f64 js))) = Some (jwrite_docs fmt_f64 js).
+Proof. exact json_output_is_a_fixed_point. Qed.
